@@ -13,6 +13,7 @@ from ..ir import Program, exit_line, exit_message
 from ..lin import Lin
 from ..pathflags import BudgetExceeded, run_adaptive
 from ..flags import TFlags
+from . import prim_common
 from .. import frontend, api, par
 from .c05 import convention, STATUS_OK, describe, OPAQUE
 from . import dest_common as dc
@@ -106,10 +107,14 @@ def run(ck):
     for n in list(per)[:4]:
         ck.sample(dict(function=n, **per[n]))
     pr = pointer_rule(ck, prog, [n for n in POINTER_RETURNING if n in prog.funcs], ck.report)
+    prim = prim_common.primitive_rule(ck, prog, "C06", ck.report)
     fx = selftest(ck)
-    cov = dict(returned_pointers=pr, explanation="All paths of the %d non-truncating copy/concatenate functions: %d success-return path classes, none of which follows an edge on which the counter initialised "
+    fx["primitives"] = prim_common.selftest(ck)
+    cov = dict(returned_pointers=pr, primitives=prim, explanation="All paths of the %d non-truncating copy/concatenate functions: %d success-return path classes, none of which follows an edge on which the counter initialised "
                "from dmax is zero; the budget-exhausted exits (present in every function: the rule is not vacuous) all reach error returns. Returned pointers: on every success path of stpcpy_s/stpncpy_s "
-               "the returned pointer equals the position of the terminating null tracked by the destination typestate." % (len(per), tot),
+               "the returned pointer equals the position of the terminating null tracked by the destination typestate. Primitives: in each of the 7 mem_prim_* routines, on every path to the return the stores "
+               "through dest tile dest[0 .. len*size) exactly once (alignment prologue, unrolled word/element body, tail), each copied element comes from the same offset of src, no count subtraction can wrap; "
+               "17 loops summarised by a per-iteration progress rule (counter decrease x bytes per count == cursor advance == bytes stored), mem_prim_move's precondition len >= 1 established at its call sites." % (len(per), tot),
                obligations=tot, discharged=tot - len(ck.reports), functions=per, fixtures=fx, frontend=info,
                summary="%d functions, %d success path classes" % (len(per), tot))
     return ck.finish(cov, ["decided: 'no silent truncation' and 'the returned pointer is the terminator' (stpcpy_s, stpncpy_s); result equality with the libc counterparts and returned counts are not", "C05's checked precondition covers nested copies whose result is ignored"])
